@@ -3,17 +3,18 @@ import ast
 
 import z3
 
-from .sorts import (SV, PyVal, PyTuple, Closure, BoundMethod, ModuleRef, ClassRef, SpecFn, INT, BOOL, STR, REAL, VAL, NONE,
+from .sorts import (ArrT, SV, PyVal, PyTuple, Closure, BoundMethod, ModuleRef, ClassRef, SpecFn, INT, BOOL, STR, REAL, VAL, NONE,
                     NONE_V, RefT, SeqT, SetT, MapT, TupT, Val, Ref, null, zsort, fresh, mk_bool, mk_int, mk_str, fresh_name)
-from .values import (OutsideSubset, coerce, box, unbox, py_eq, truthy, ite, tup_items, empty_map, join_sort, is_ref,
+from .values import (nth, OutsideSubset, coerce, box, unbox, py_eq, truthy, ite, tup_items, empty_map, join_sort, is_ref,
                      int_to_str, default_term)
 from .state import PyRaise
 
 BUILTIN_NAMES = set('len list tuple set frozenset dict zip enumerate reversed range isinstance issubclass next iter filter sorted '
                     'getattr setattr hasattr delattr str int float bool min max sum abs repr type print property object '
                     'all any map'.split())
-SPEC_NAMES = set('old result implies fresh unchanged unchanged_except seq_remove seq_index count_true typeof_is ite at_label '
-                 'map_keys map_has map_get contains_all is_int is_str is_none is_bool is_real upper lower class_defaults int_str every refs ints strs vals'.split())
+SPEC_NAMES = set('old result implies fresh unchanged seq_remove seq_index ite map_keys is_int is_str is_none is_bool is_real '
+                 'upper lower class_defaults int_str every refs anyref ints strs vals arr_set arr_dec_above seq_without seq_take '
+                 'seq_drop allocated'.split())
 EXC_NAMES = set('Exception KeyError IndexError ValueError TypeError AttributeError StopIteration ZeroDivisionError AssertionError '
                 'RuntimeError NotImplementedError LookupError ArithmeticError BaseException'.split())
 
@@ -45,6 +46,8 @@ class ExprMixin(object):
         n = node.id
         if n in st.env:
             return st.env[n]
+        if n == '_yielded' and st.yielded is not None:
+            return st.yielded
         return self.global_name(n, st)
 
     def global_name(self, n, st):
@@ -84,7 +87,7 @@ class ExprMixin(object):
     def ev_List(self, node, st):
         items = [self.ev(e, st) for e in node.elts]
         hint = self.literal_hint(node)
-        if hint is not None:
+        if hint is not None and not self.spec_mode:
             return self.alloc_record(st, hint, items)
         if not items:
             return SV(SeqT(None), {})
@@ -106,6 +109,7 @@ class ExprMixin(object):
 
     def alloc_record(self, st, cls, items):
         r = self.allocate(st, cls)
+        self.record_len[r.t.sexpr()] = len(items)
         for i, v in enumerate(items):
             key = self.reg.field_key(cls, '[%d]' % i)
             self.heap_set(st, key, r.t, v)
@@ -121,11 +125,32 @@ class ExprMixin(object):
 
     def ev_IfExp(self, node, st):
         c = self.truth(st, self.ev(node.test, st))
+        d = self.decided(st, c)
+        if d is True:
+            return self.ev(node.body, st)
+        if d is False:
+            return self.ev(node.orelse, st)
         if self.is_pure(node.body) and self.is_pure(node.orelse):
             return ite(c, self.ev(node.body, st), self.ev(node.orelse, st))
         if self.choose_bool(st, c):
             return self.ev(node.body, st)
         return self.ev(node.orelse, st)
+
+    def decided(self, st, c):
+        """True/False when the path condition syntactically fixes the (closed) condition c, else None"""
+        c = z3.simplify(c)
+        if z3.is_true(c):
+            return True
+        if z3.is_false(c):
+            return False
+        nc = z3.simplify(z3.Not(c))
+        for p in st.pc:
+            ps = z3.simplify(p)
+            if ps.eq(c):
+                return True
+            if ps.eq(nc):
+                return False
+        return None
 
     def is_pure(self, node):
         """no call that may raise or modify (conservative: calls to spec functions/builtins only)"""
@@ -201,7 +226,10 @@ class ExprMixin(object):
                 return r
             if rs.elem is None:
                 return l
-            return SV(ls, z3.Concat(l.t, coerce(r, ls).t))
+            rt = coerce(r, ls).t
+            if z3.is_app_of(rt, z3.Z3_OP_SEQ_UNIT):
+                return self.seq_append(st, l, SV(ls.elem, rt.arg(0)))
+            return SV(ls, z3.Concat(l.t, rt))
         if isinstance(op, (ast.BitOr, ast.BitAnd, ast.Sub, ast.BitXor)) and isinstance(ls, SetT) and isinstance(rs, SetT):
             if ls.elem is None and rs.elem is None:
                 return l
@@ -359,12 +387,7 @@ class ExprMixin(object):
         if isinstance(s, SeqT):
             if s.elem is None:
                 return z3.BoolVal(False)
-            if s.elem == VAL or (not isinstance(x, PyVal) and x.sort == VAL and s.elem != VAL):
-                # python equality on Val elements: quantify
-                i = z3.Int(fresh_name('ci'))
-                el = SV(s.elem, cont.t[i])
-                return z3.Exists([i], z3.And(0 <= i, i < z3.Length(cont.t), py_eq(el, x)))
-            return z3.Contains(cont.t, z3.Unit(coerce(x, s.elem).t))
+            return self.seq_contains(cont, x)
         if isinstance(s, SetT):
             if s.elem is None:
                 return z3.BoolVal(False)
@@ -383,6 +406,36 @@ class ExprMixin(object):
             if m is not None:
                 return self.truth(st, self.call_contract(m, [cont, x], {}, st))
         raise OutsideSubset('membership in %s' % s)
+
+    def seq_append(self, st, a, x):
+        """a + [x] as a named sequence with its element-wise definition (triggers on r[i] let quantified invariants about `a` fire)"""
+        r = fresh(a.sort, 'app')
+        i = z3.Int(fresh_name('ai'))
+        n = z3.Length(a.t)
+        st.assume(r.t == z3.Concat(a.t, z3.Unit(x.t)))
+        st.assume(z3.Length(r.t) == n + 1)
+        st.assume(nth(r.t, n) == x.t)
+        st.assume(z3.ForAll([i], z3.Implies(z3.And(0 <= i, i < n), nth(r.t, i) == nth(a.t, i)), patterns=[nth(r.t, i)]))
+        return r
+
+    def seq_remove_at(self, st, a, p):
+        """a without position p, as a named sequence with its element-wise definition"""
+        r = fresh(a.sort, 'rem')
+        i = z3.Int(fresh_name('ri'))
+        n = z3.Length(a.t)
+        st.assume(z3.Implies(z3.And(0 <= p, p < n),
+                             z3.And(r.t == z3.Concat(z3.Extract(a.t, 0, p), z3.Extract(a.t, p + 1, n - p - 1)), z3.Length(r.t) == n - 1)))
+        st.assume(z3.ForAll([i], z3.Implies(z3.And(0 <= i, i < n - 1, 0 <= p, p < n), nth(r.t, i) == z3.If(i < p, nth(a.t, i), nth(a.t, i + 1))), patterns=[nth(r.t, i)]))
+        return r
+
+    def seq_contains(self, cont, x):
+        """x in seq as an index quantifier (the sequence solver's native `contains` does not combine with quantified invariants)"""
+        n = z3.simplify(z3.Length(cont.t))
+        if z3.is_int_value(n) and n.as_long() <= 6:
+            return z3.Or([py_eq(SV(cont.sort.elem, z3.simplify(nth(cont.t, k))), x) for k in range(n.as_long())]) if n.as_long() else z3.BoolVal(False)
+        i = z3.Int(fresh_name('ci'))
+        el = SV(cont.sort.elem, nth(cont.t, i))
+        return z3.Exists([i], z3.And(0 <= i, i < z3.Length(cont.t), py_eq(el, x)))
 
     # ---------------------------------------------------------------- attribute / subscript
     def ev_Attribute(self, node, st):
@@ -419,7 +472,7 @@ class ExprMixin(object):
         raise OutsideSubset('attribute %s of %s' % (attr, s))
 
     def assume_field_invariant(self, st, v):
-        if isinstance(v, PyVal):
+        if isinstance(v, PyVal) or self.spec_mode:
             return
         if is_ref(v.sort):
             st.assume(z3.Or(v.t == null, self.allocated(st, v.t)))
@@ -455,13 +508,19 @@ class ExprMixin(object):
             if z3.is_int_value(i):
                 return tup_items(base)[i.as_long()]
             raise OutsideSubset('tuple index')
+        if isinstance(s, ArrT):
+            return SV(s.v, z3.Select(base.t, coerce(idx, s.k).t))
         if isinstance(s, SeqT):
             i = coerce(idx, INT).t
             n = z3.Length(base.t)
             if not self.spec_mode:
                 self.raise_if(st, z3.Or(i >= n, i < -n), 'IndexError', 'list index')
-            j = z3.simplify(z3.If(i < 0, n + i, i))
-            el = SV(s.elem, base.t[j])
+            isimp = z3.simplify(i)
+            if self.spec_mode and not (z3.is_int_value(isimp) and isimp.as_long() < 0):
+                j = i                      # specifications index sequences with non-negative positions
+            else:
+                j = z3.simplify(z3.If(i < 0, n + i, i))
+            el = SV(s.elem, nth(base.t, j))
             self.assume_field_invariant(st, el)
             return el
         if s == STR:
@@ -523,7 +582,7 @@ class ExprMixin(object):
             raise OutsideSubset('list comprehension with filter or effects')
         i = z3.Int(fresh_name('li'))
         s2 = st.fork()
-        self.bind_target(g.target, SV(seq.sort.elem, seq.t[i]), s2)
+        self.bind_target(g.target, SV(seq.sort.elem, nth(seq.t, i)), s2)
         saved = st.env
         st.env = s2.env
         try:
@@ -534,7 +593,7 @@ class ExprMixin(object):
             raise OutsideSubset('comprehension element')
         r = fresh(SeqT(el.sort), 'comp')
         st.assume(z3.Length(r.t) == z3.Length(seq.t))
-        st.assume(z3.ForAll([i], z3.Implies(z3.And(0 <= i, i < z3.Length(seq.t)), r.t[i] == el.t)))
+        st.assume(z3.ForAll([i], z3.Implies(z3.And(0 <= i, i < z3.Length(seq.t)), nth(r.t, i) == el.t)))
         return r
 
     def quantifier(self, node, st, universal):
@@ -569,6 +628,10 @@ class ExprMixin(object):
             if cls:
                 guard = z3.And(guard, self.isinstance_term(r, cls))
             return [r], guard, {g.target.id: SV(RefT(cls), r)}
+        if isinstance(it, ast.Call) and isinstance(it.func, ast.Name) and it.func.id == 'anyref':
+            cls = it.args[0].value if it.args else None
+            r = z3.Const(fresh_name('qr'), Ref)
+            return [r], z3.BoolVal(True), {g.target.id: SV(RefT(cls), r)}
         if isinstance(it, ast.Call) and isinstance(it.func, ast.Name) and it.func.id == 'ints':
             i = z3.Int(fresh_name('q'))
             return [i], z3.BoolVal(True), {g.target.id: SV(INT, i)}
@@ -584,7 +647,7 @@ class ExprMixin(object):
         if isinstance(dom.sort, SeqT) or is_ref(dom.sort):
             seq = self.as_seq(dom, st)
             i = z3.Int(fresh_name('q'))
-            el = SV(seq.sort.elem, seq.t[i])
+            el = SV(seq.sort.elem, nth(seq.t, i))
             s2 = st.fork()
             self.bind_target(g.target, el, s2)
             add = dict((k, v) for k, v in s2.env.items() if st.env.get(k) is not v)
